@@ -156,8 +156,9 @@ class RandomGen:
     """Seeded random programs of the effectful profile (class C01/C05 depending on flags)."""
 
     def __init__(self, rnd, maxdepth=3, loop_else=False, maxfns=3, ifexp=True, exprstmt=True, dele=True,
-                 try_=True, with_=True, calls=True, names=None, hnames=True):
+                 try_=True, with_=True, calls=True, names=None, hnames=True, directives=True):
         self.hnames = hnames
+        self.directives = directives
         self.r = rnd
         self.b = Builder()
         self.maxdepth = maxdepth
@@ -196,6 +197,11 @@ class RandomGen:
             return b.expr(kind='ifexp', args=[self.test(scope, 1), self.value(scope, 1), self.value(scope, 1)])
         return b.expr(kind=self.r.choice(['and', 'or']), args=[self.value(scope, 1), self.value(scope, 1)])
 
+    def directive(self, fn):
+        if self.directives and self.r.random() < 0.2:
+            return [self.b.node(kind='directive', fn=fn, k=100 + self.b.newk())]
+        return []
+
     def block(self, fn, scope, depth, inloop, infinally=False, lo=1, hi=3):
         out = []
         for _ in range(self.r.randint(lo, hi)):
@@ -224,14 +230,14 @@ class RandomGen:
         if r < 0.52:
             i = b.node(kind='while', fn=fn)
             N[i - 1]['e'] = self.test(scope)
-            N[i - 1]['body'] = self.block(fn, scope, depth + 1, True, infinally)
+            N[i - 1]['body'] = self.directive(fn) + self.block(fn, scope, depth + 1, True, infinally)
             if self.loop_else and self.r.random() < 0.3:
                 N[i - 1]['orelse'] = self.block(fn, scope, depth + 1, inloop, infinally)
             return i
         if r < 0.62:
             i = b.node(kind='for', fn=fn, tgt=[self.r.choice(self.names)])
             N[i - 1]['e'] = b.I(self.reads(scope))
-            N[i - 1]['body'] = self.block(fn, scope, depth + 1, True, infinally)
+            N[i - 1]['body'] = self.directive(fn) + self.block(fn, scope, depth + 1, True, infinally)
             if self.loop_else and self.r.random() < 0.3:
                 N[i - 1]['orelse'] = self.block(fn, scope, depth + 1, inloop, infinally)
             return i
@@ -365,6 +371,8 @@ def r_stmt(p, n, ind, out):
         r_block(p, d['body'], ind + 1, out)
     elif k in ('break', 'continue', 'pass'):
         emit(k)
+    elif k == 'directive':
+        emit('set_loop_options(maximum_iterations=%d)' % d['k'])
     elif k == 'return':
         emit('return %s' % r_expr(p, d['e']))
     elif k == 'raise':
@@ -446,6 +454,10 @@ class IList(list):
     serial = 0
 
 
+def _no_directive(**kw):
+    return None
+
+
 class Run:
     """The external world of a MiniPy program: tracers driven by a decision vector, recording the effect log."""
 
@@ -491,7 +503,7 @@ class Run:
         return _CM()
 
     def ns(self):
-        return dict(T=self.T, D=self.D, I=self.I, CM=self.CM, E1=E1, E2=E2)
+        return dict(T=self.T, D=self.D, I=self.I, CM=self.CM, E1=E1, E2=E2, set_loop_options=_no_directive)
 
 
 def main_args(p, inp=None):
